@@ -94,6 +94,7 @@ func genC08(d *Draw) Case {
 	final := AnswerSpec{Results: map[string]any{"ok_T1": okVal}, Objects: map[string]any{"do_T1": okVal, "ux_T1": true}}
 	final.Calls = 1 + d.N(3)
 	final.Conc = final.Calls > 1 && d.Bool()
+	final.MixErr = final.Calls > 1 && d.N(3) == 2
 	var script []AnswerSpec
 	retries := d.N(4)
 	desc := ""
@@ -130,7 +131,7 @@ func genC08(d *Draw) Case {
 		t1.Retries = 1 + d.N(3) // element-level retries attribute (must not change the semantics of a handler decision)
 		desc += fmt.Sprintf(" [definition retries=%d]", t1.Retries)
 	}
-	prog := &Program{Defs: defs, Vars: map[string]any{}, Desc: fmt.Sprintf("T1(%s; calls=%d conc=%v ok=%v obj=%v) -> X -> T2|T3", desc, final.Calls, final.Conc, okVal, useObj)}
+	prog := &Program{Defs: defs, Vars: map[string]any{}, Desc: fmt.Sprintf("T1(%s; calls=%d conc=%v mixed=%v ok=%v obj=%v) -> X -> T2|T3", desc, final.Calls, final.Conc, final.MixErr, okVal, useObj)}
 	c := &ProcCase{Prog: prog, Buf: d.N(17), Hold: d.N(3), LogProps: true}
 	c.Scripts = map[string][]AnswerSpec{"T1": script}
 	c.Picks = drawPicks(d, 16)
@@ -175,9 +176,11 @@ func checkC08(cc Case, r *simrt.Result) *Outcome {
 		}
 	}
 	ncalls := 0
+	mixed := false
 	for _, sp := range c.Scripts["T1"] {
 		if sp.Mode == "" && sp.Calls > 1 {
 			ncalls = sp.Calls
+			mixed = sp.MixErr
 		}
 	}
 	if v, ok := finalVars["r_T1"].(string); ok && ncalls > 1 && tg.Quiesced {
@@ -186,7 +189,7 @@ func checkC08(cc Case, r *simrt.Result) *Outcome {
 		if i := strings.LastIndex(v, "."); i > 0 {
 			fmt.Sscan(v[i+1:], &eff)
 		}
-		if eff < 1 || eff > ncalls {
+		if eff < 1 || eff > ncalls || (mixed && eff%2 == 0) {
 			vl.add("C08/effect-of-no-call", "stored result %q is not the payload of any of the %d Do calls", v, ncalls)
 		} else {
 			// request number of the successful answer = position in the script
@@ -243,6 +246,8 @@ func checkC08(cc Case, r *simrt.Result) *Outcome {
 	probe(o, "parallel-result-writers", c.Meta["parallel"] > 0)
 	probe(o, "duplicate-answer", fc["duplicate-answer"] > 0)
 	probe(o, "concurrent-answers", fc["concurrent-answers"] > 0)
+	probe(o, "answers-of-different-kinds", fc["answers-of-different-kinds"] > 0)
+	probe(o, "answers-of-different-kinds-concurrent", fc["answers-of-different-kinds"] > 0 && fc["concurrent-answers"] > 0)
 	probe(o, "late-handler-decision", fc["error-handler-decision-late"] > 0)
 	probe(o, "task-timeout-fired", tg.Timeouts > 0)
 	probe(o, "retried", tg.Requests["T1"] > 1)
